@@ -230,6 +230,9 @@ def tie(ctx):
                 norm, muts = s_raw._load_sam(sbam)
                 s2 = Sample.__new__(Sample)
                 s2.gene = g
+                # the attributes Sample.__init__ sets before loading (as on s1), then the ones a load fills reset
+                s2.__dict__.update({kk2: v for kk2, v in s1.__dict__.items() if kk2 in (
+                    "path", "_dump_reads", "_indel_sites_eqs", "_indel_phase_eqs", "_multi_sites", "phaseable", "is_long_read", "reads")})
                 s2.__dict__.update({"name": "", "profile": None, "_dump_cn": {}, "_fusion_counter": {}, "_indel_sites": {}, "phases": {}})
                 norm2, muts2 = s2._load_dump(dump_path)
                 keys = [("n", p) for p in norm if norm[p]] + [("m", p) for p in muts if muts[p]]
